@@ -23,18 +23,26 @@ LATIN1 = list("\xe9\xe8\xfc\xf6\xe4\xdf\xf1\xe7\xc5\xd8\xe6\xa3\xa5\xa9\xae\xb0\
 CP1252 = list("\u20ac\u201a\u0192\u201e\u2026\u2020\u2021\u02c6\u2030\u0160\u2039\u0152\u017d\u2018\u2019\u201c\u201d\u2022\u2013\u2014\u02dc\u2122\u0161\u203a\u0153\u017e\u0178")
 SJIS = list("\u3042\u3044\u3046\u3048\u304a\u30ab\u30ad\u30af\u30b1\u30b3\u6f22\u5b57\u65e5\u672c\u8a9e\u3001\u3002\u300c\u300d\uff71\uff72\uff73\u3000\xd7")
 BMP = list("\u03b1\u03b2\u03b3\u03a9\u0416\u044f\u05d0\u05d1\u0639\u0631\u0628\u4e2d\u6587\ud55c\uae00\u0e44\u0e17\u0301\u200b\u200e\u2028\u2029\ufeff\ufffd\u2260\u221e\ufb01\ufdfa\uffe5")
+# pools for the escape-sequence codecs (iso2022_jp, iso2022_kr, hz): small, so that the same character recurs
+# after ASCII and after another character of the pool, i.e. in different shift states
+JIS = list("\u3042\u3044\u3046\u30ab\u30ad\u6f22\u5b57\u65e5\u672c\u3001\u3002")
+KR = list("\ud55c\uae00\uac00\ub098\ub2e4\uc11c\uc6b8")
+ZH = list("\u4e2d\u6587\u6c49\u5b57\u4f60\u597d\u3002\uff0c")
 NONBMP = ["\U0001F600", "\U0001D4B3", "\U00020000", "\U0010FFFD", "\U0001F1E9\U0001F1EA", "\U0001F468\u200d\U0001F469", "\U00010348"]
 CTRL = [chr(c) for c in list(range(0, 9)) + [0x0B, 0x0C] + list(range(0x0E, 0x20))]   # not XML 1.0 Chars
 WS = ["\t", "\n", "\r", "\r\n"]
 C1 = ["\x7f", "\x80", "\x85", "\x9f"]
 NONCHAR = ["\ufffe", "\uffff"]
 
-PROFILES = ["ascii", "latin1", "cp1252", "sjis", "any"]
+PROFILES = ["ascii", "latin1", "cp1252", "sjis", "any", "jis", "kr", "zh"]
 PROFILE_POOLS = {
     "ascii": [],
     "latin1": [LATIN1],
     "cp1252": [LATIN1, CP1252],
     "sjis": [SJIS],
+    "jis": [JIS, JIS, JIS],
+    "kr": [KR, KR, KR],
+    "zh": [ZH, ZH, ZH],
     "any": [LATIN1, CP1252, SJIS, BMP, NONBMP, NONBMP],
 }
 
